@@ -63,6 +63,9 @@ def exact(ty: str, v: Any, r: Any) -> bool:
     infinity is not rounding); everything else must come back identical, in the declared kind."""
     if v is None or r is None:
         return v is None and r is None
+    if ty == "opaque":
+        # a type definition that names no primitive type: nothing may be altered at all
+        return same_cell(v, r)
     if ty in ("int", "long"):
         return type(r) is int and is_number(v) and v == r
     if ty == "double":
@@ -102,6 +105,8 @@ def exact(ty: str, v: Any, r: Any) -> bool:
 
 def good_values(ty: str) -> List[Any]:
     """Values of POOL the declared type can hold (used to bias generated batches towards accepted appends)."""
+    if ty == "opaque":
+        ty = "string"
     out = []
     for v in POOL:
         if v is None:
